@@ -603,8 +603,9 @@ def judge_answer(sim, ev, rec):
             for cp in conf_props:
                 add(sim, rec, cp, "plain-assertion-returned-as-encrypted",
                     "n_plain=%d inside-EncryptedAssertion-wrapper=%d tool=%s" % (len(m["assertions"]), wrapped_plain, rec.get("tool")))
-    # ---- C17: confidentiality of what was encrypted
-    if asked_protect["encrypt"] and can_encrypt:
+    # ---- C17: confidentiality of what was encrypted (PEFIM: the attribute assertion in the Advice is always
+    # to be encrypted, whether or not the main assertion is)
+    if (asked_protect["encrypt"] or p.get("pefim")) and can_encrypt:
         asked = msg.get("asked") or {}
         decodings = []
         raw = msg["fields"].get("SAMLResponse") or ""
